@@ -25,6 +25,8 @@ func main() {
 	repo := flag.String("repo", "/repo", "repository under test (only used to read its test tables as corpus)")
 	workers := flag.Int("workers", 0, "worker count (default GOMAXPROCS)")
 	isoChild := flag.String("isolation-child", "", "internal: run the C04 isolation stage (race build) and write the summary to this file")
+	covFunc := flag.String("covfunc", "", "output of `go tool covdata func` from the coverage pass: summarised into the evidence (observability only)")
+	noEvidence := flag.Bool("noevidence", false, "internal: coverage pass, do not write evidence or replay files")
 	flag.Parse()
 	debug.SetGCPercent(600)
 	core.VerifDir = *verif
@@ -78,6 +80,12 @@ func main() {
 		r.NW = *workers
 	} else {
 		r.NW = runtime.GOMAXPROCS(0)
+	}
+	r.NoEvidence = *noEvidence
+	if *covFunc != "" {
+		if c := core.CoverageSummary(*covFunc); c != nil {
+			r.Extra["library_statement_coverage_of_this_check (quick-size workload, go build -cover)"] = c
+		}
 	}
 	fn(r)
 	os.Exit(r.Finish())
